@@ -164,7 +164,7 @@ PROPS = {
         unit("c14", "registry/consul", ["consul/c14_test.go"], "^TestVerifC14Reg"),
         unit("c14-sched", "registry/consul", ["consul/c14_test.go", "consul/c14_sched_test.go"], "^TestVerifC14Sched", engines=SCHED, race=True, sched_env={"GOMAXPROCS": "1"}, shards={"quick": 2, "thorough": 8},
              rewrite=[{"files": ["registry/consul/service.go"], "opts": ["-go", "-chan", "-stmt", "-sortrange=m", "-only", "makeConfig,serviceConfig"]}, {"files": ["registry/consul/routecmd.go"], "opts": ["-stmt", "-only", "build"]}]),
-    ], layers={"quick": ["c14-registrations", "c14-sched"], "thorough": ["c14-registrations", "c14-sched"]}),
+    ], layers={"quick": ["c14-registrations", "c14-multi", "c14-sched"], "thorough": ["c14-registrations", "c14-multi", "c14-sched"]}),
     "C01": dict(level="model_checking", engine="xstate",
         technique="explicit-state BFS over registry histories through the real consul watchers + watchBackend against a fake Consul HTTP API; bounded-exhaustive check sequences for the health rule",
         level_text="(health rule) every sequence of up to 3 (thorough 4) health checks over 28 check shapes x tagged/untagged x strict/non-strict x 4 accepted-status lists through the real checksWithTagPrefix + passingServices against an independent predicate. (pipeline) breadth-first exploration of registry histories (depth 2 quick, 3 thorough, state de-duplicated) through the real backend, watchers, watchBackend and table installation, with causal quiescence detection; every state compares the active table with the reference.",
@@ -207,7 +207,7 @@ PROPS = {
 
 LAYER_UNIT = {"c06-sched": "c06", "c03-select": "c03", "c03-lookuphost": "c03", "c04-add": "c04", "c04-weightcmd": "c04", "c05-commands": "c05",
               "c07-request": "c07", "c07-response": "c07", "c07-wire": "c07", "c07-history": "c07", "c08-headers": "c08", "c08-websocket": "c08", "c09-tunnels": "c09", "c09-proxyline": "c09-sockets", "c09-websocket": "c09-ws",
-              "c10-sni": "c10", "c12-rules": "c12-rules", "c13-inputs": "c13", "c13-sched": "c13", "c14-registrations": "c14", "c15-sources": "c15-config",
+              "c10-sni": "c10", "c12-rules": "c12-rules", "c13-inputs": "c13", "c13-sched": "c13", "c14-registrations": "c14", "c14-multi": "c14", "c15-sources": "c15-config",
               "c15-robust": "c15-config", "c15-junk": "c15-config", "c16-calls": "c16", "c16-history": "c16", "c19-config": "c19", "c19-behaviour": "c19", "c19-history": "c19", "c20-fields": "c20-logger", "c20-e2e": "c20-formatters",
               "c20-formats": "c20-logger", "c20-atoi": "c20-logger", "c01-health": "c01-health"}
 
